@@ -166,7 +166,8 @@ def member_store_checks(ctx, rule="C07.R4"):
                     sc = e["target"]
                     nm = ("attr", sc, "name")
                     rest = [x for x in evs[i + 1:]]
-                    named_after = any(x.kind == "ASSUME" and x["cond"] == nm for x in evs)
+                    anonymous = any(x.kind == "ASSUME" and x["cond"] == N.mk_not(nm) for x in evs)
+                    named_after = not anonymous and any(x.kind == "ASSUME" and (x["cond"] == nm or (x["cond"][0] == "cmp" and x["cond"][1] == "==" and nm in x["cond"][2:])) for x in evs)
                     if not named_after:
                         continue
                     found += 1
